@@ -1,8 +1,95 @@
-import TypstyleModel.Props.C01
-/-! C08 — (partial) see DESIGN.md §4 C08. Foundation: layout soundness and the post-pass. -/
+import TypstyleModel.Props.C07
+import TypstyleModel.Proofs.Monad
+/-! C08 — prose is left untouched (printer side).  The line representation of a piece of markup
+loses, duplicates and reorders no node; inside a line a space is printed as one blank (never a break),
+a line ends with exactly its number of line feeds, text leaves are copied, and an expression on a line
+that also holds text is converted with breaks suppressed. -/
 namespace Typstyle
 open Pretty
 
-theorem C08_layout_sound (w : Nat) (d : Doc) : Lay .brk d (best w 0 [⟨0, .brk, d⟩]) := pretty_lay w d
+def isWsNode (n : ANode) : Bool := n.kind == .space || n.kind == .parbreak
+
+/-- All nodes of the representation so far, in order. -/
+def reprNodes (acc : List MLine × MLine × Bound) : List ANode := acc.1.flatMap (·.nodes) ++ acc.2.1.nodes
+
+theorem reprStep_keeps (acc : List MLine × MLine × Bound) (node : ANode) :
+    (reprNodes (reprStep acc node)).filter (fun n => !isWsNode n) =
+      (reprNodes acc).filter (fun n => !isWsNode n) ++ (if isWsNode node then [] else [node]) := by
+  obtain ⟨lines, cur, sb⟩ := acc
+  unfold reprStep reprNodes
+  simp only
+  split
+  · rename_i h
+    have : isWsNode node = true := by simp [isWsNode, h]
+    simp [this, List.flatMap_append]
+  · split
+    · rename_i h
+      have : isWsNode node = true := by
+        simp only [Bool.and_eq_true] at h; simp [isWsNode, h.1]
+      simp [this]
+    · split
+      · rename_i h
+        have : isWsNode node = true := by
+          simp only [Bool.and_eq_true] at h; simp [isWsNode, h.1]
+        simp [this, List.flatMap_append]
+      · by_cases hw : isWsNode node = true
+        · simp [hw, List.filter_append]
+          split <;> rfl
+        · simp [hw, List.filter_append]
+          split <;> rfl
+
+/-- T8.1: `collect_markup_repr`'s main loop neither loses, duplicates nor reorders any node that is
+not white space (white space becomes line structure: blanks inside a line, line feeds at its end). -/
+theorem C08_repr_keeps_every_node (children : List ANode) (acc : List MLine × MLine × Bound) :
+    (reprNodes (children.foldl reprStep acc)).filter (fun n => !isWsNode n) =
+      (reprNodes acc).filter (fun n => !isWsNode n) ++ children.filter (fun n => !isWsNode n) := by
+  induction children generalizing acc with
+  | nil => simp
+  | cons c cs ih =>
+    simp only [List.foldl_cons]
+    rw [ih, reprStep_keeps, List.append_assoc]
+    congr 1
+    by_cases h : isWsNode c = true <;> simp [h]
+
+/-- A paragraph break ends the line with exactly its number of line feeds. -/
+theorem C08_parbreak_keeps_its_line_feeds (lines : List MLine) (cur : MLine) (sb : Bound) (node : ANode)
+    (h : node.kind = .parbreak) :
+    reprStep (lines, cur, sb) node = (lines ++ [{ cur with breaks := countLinebreaks node.text }], {}, sb) := by
+  simp [reprStep, h]
+
+/-- A line break inside a paragraph ends the line with one line feed (it is never turned into a blank). -/
+theorem C08_line_break_ends_the_line (lines : List MLine) (cur : MLine) (sb : Bound) (node : ANode)
+    (h : node.kind = .space) (hne : cur.nodes.isEmpty = false) (hlb : hasLinebreak node.text = true) :
+    reprStep (lines, cur, sb) node = (lines ++ [{ cur with breaks := 1 }], {}, sb) := by
+  simp [reprStep, h, hne, hlb]
+
+/-- A blank between two pieces of one line stays a node of that line … -/
+theorem C08_blank_stays_in_line (lines : List MLine) (cur : MLine) (sb : Bound) (node : ANode)
+    (h : node.kind = .space) (hne : cur.nodes.isEmpty = false) (hlb : hasLinebreak node.text = false) :
+    reprStep (lines, cur, sb) node = (lines, { cur with nodes := cur.nodes ++ [node] }, sb) := by
+  simp [reprStep, h, hne, hlb, isBlockElem]
+
+/-- T8.2a: … and is printed as exactly one blank — not a line break, not nothing — whatever the width. -/
+theorem C08_blank_is_one_space (e : Env) (r : Rec) (ctx : Ctx) (mixed : Bool) (doc : Twin.Doc) (node : ANode)
+    (h : node.kind = .space) : markupNodeStep e r ctx mixed doc node = pure (doc ++ Twin.space) := by
+  simp [markupNodeStep, h]
+
+/-- T8.4: a run of text is copied as one atom. -/
+theorem C08_text_is_copied (e : Env) (r : Rec) (ctx : Ctx) (mixed : Bool) (doc : Twin.Doc) (node : ANode)
+    (h : node.kind = .text) : markupNodeStep e r ctx mixed doc node = pure (doc ++ e.tok node.intoText) := by
+  simp [markupNodeStep, h]
+
+/-- T8.3: an expression on a line that also holds text/strong/emph/raw is converted with breaks
+suppressed (so that the line is not re-wrapped around it). -/
+theorem C08_mixed_line_suppresses_breaks (e : Env) (r : Rec) (ctx : Ctx) (doc : Twin.Doc) (node : ANode)
+    (hk : node.kind ≠ .space ∧ node.kind ≠ .text) (he : isExpr node = true) :
+    markupNodeStep e r ctx true doc node = (do let d ← r.expr ctx.suppress node; pure (doc ++ d)) := by
+  simp [markupNodeStep, hk.1, hk.2, he]
+
+/-- T8.2b: a line is followed by exactly `breaks` hard line breaks (a hard break is never flattened, R2). -/
+theorem C08_line_ends_with_its_breaks (e : Env) (r : Rec) (ctx : Ctx) (doc : Twin.Doc) (l : MLine) :
+    markupLineStep e r ctx doc l =
+      (do let d ← l.nodes.foldlM (markupNodeStep e r ctx l.mixedText) doc
+          pure (if l.breaks > 0 then d ++ Twin.repeatN Twin.hardline l.breaks else d)) := rfl
 
 end Typstyle
